@@ -4,6 +4,7 @@
 //   --mode c05  href is a parse fixed point, plain ASCII
 //   --mode c07  url_aggregator structural consistency + copy independence
 //   --mode c19  URL record invariants
+//   --mode c10  host kind truthful (host_type describes the host in the href) + has_valid_domain, after every step
 // Case = [type 'a'|'u', input, base|NULL, (opcode, value)*]; opcode = 'a'+obs::Op, or
 //   'P' parse value relative to the object, 'C' take a copy, 'D' apply next op to the copy, 'M' move round trip
 #include "vh.h"
@@ -74,7 +75,7 @@ template <class T>
 static void run_single(const Case& c) {
   bool base_ok;
   auto start = parse_start<T>(c, base_ok);
-  const bool is_c03 = MODE == "c03", is_c05 = MODE == "c05", is_c07 = MODE == "c07", is_c19 = MODE == "c19";
+  const bool is_c03 = MODE == "c03", is_c05 = MODE == "c05", is_c07 = MODE == "c07", is_c19 = MODE == "c19", is_c10 = MODE == "c10";
   ref::Url rbase, ru; bool have_ref = false;
   if (is_c03) {
     ref::Result rb = ref::RES_OK;
@@ -89,6 +90,7 @@ static void run_single(const Case& c) {
   n_hist++;
   if (is_c03 && have_ref && obs::snap(u).api() != obs::ref_api(ru)) { n_skipped++; return; }  // start state mismatch belongs to C01
   auto quiescent = [&](const T& x, size_t upto, const char* where) {
+    if (is_c10) { std::string e = inv::check_host_kind(x); if (!e.empty()) vh::violation(e.substr(0, e.find(':')) + ":" + where, c, e + " after " + opdesc(c, upto)); }
     if (is_c19) { std::string e = inv::check_record(x); if (!e.empty()) vh::violation("record:" + e.substr(0, e.find(':')), c, std::string(where) + " " + e + " after " + opdesc(c, upto)); }
     if constexpr (std::is_same_v<T, ada::url_aggregator>) {
       if (is_c07) { std::string e = inv::check_aggregator(x); if (!e.empty()) vh::violation("structure:" + e.substr(0, e.find(':')), c, std::string(where) + " " + e + " after " + opdesc(c, upto)); }
@@ -151,6 +153,7 @@ static void run_single(const Case& c) {
   // serialisation re-parses to q:/ (first version of this monitor raised that false alarm).
   if (is_c03) { if (refusals && changes) vh::klass(vh::mix(shape, 3)); }
   else if (is_c07) { if (changes >= 2) vh::klass(vh::mix(shape, 7)); }
+  else if (is_c10) { if (transitions & 2) vh::klass(vh::mix(vh::mix(obs::snap(u).host_type, obs::snap(u).scheme_type), shape & 0xfff)); }
   else if (is_c19) { if (transitions) vh::klass(vh::mix(vh::mix(transitions, obs::snap(u).scheme_type), shape & 0xff)); }
 }
 
